@@ -289,18 +289,28 @@ class Ctx:
     def stream(self, name, harness_cmd, driver_cmd, tags="", extra_args=None, replay_lines=None):
         """Run one generator stream through implementation and model, return mismatches
         as a list of (index, case, model, observed)."""
-        ok, out, failing = build_coq()
-        if not ok:
-            self.broken("coq-build", "the Coq development does not build; first failing file: %s" % failing, "\n".join(out.splitlines()[-40:]))
-            return None
-        ok, out = build_ml()
-        if not ok:
-            self.broken("model-build", "extraction / OCaml build of the model failed", out[-3000:])
-            return None
-        ok, out, binp = build_go(tags)
-        if not ok:
-            self.broken("harness-build", "the Go harness does not build against /repo's working tree", out[-3000:])
-            return None
+        built = getattr(self, "_built", None)
+        if built is None:
+            built = self._built = {}
+        if replay_lines is not None and tags in built:
+            binp = built[tags]        # replays / shrinking inside one run: everything was built by the first call
+        else:
+            # a table regenerated from a mutated source may break ANOTHER property's obligation: the stream needs this
+            # property's theorems and the modules the extraction imports (build_ml fails if one of those is missing)
+            tgt = "theories/Properties/%s.vo" % self.prop
+            ok, out, failing = build_coq(target=tgt if os.path.exists(os.path.join(COQ, tgt[:-1])) else None)
+            if not ok:
+                self.broken("coq-build", "the Coq development does not build; first failing file: %s" % failing, "\n".join(out.splitlines()[-40:]))
+                return None
+            ok, out = build_ml()
+            if not ok:
+                self.broken("model-build", "extraction / OCaml build of the model failed", out[-3000:])
+                return None
+            ok, out, binp = build_go(tags)
+            if not ok:
+                self.broken("harness-build", "the Go harness does not build against /repo's working tree", out[-3000:])
+                return None
+            built[tags] = binp
         args = [binp, harness_cmd, "-seed", str(self.seed), "-tier", self.tier, "-out", self.dir, "-name", name]
         if extra_args:
             args += extra_args
